@@ -286,7 +286,7 @@ func (rn *c11Runner) fail(sig string, detail map[string]interface{}) {
 func (rn *c11Runner) drive(log []ev.Event, first, follow int) (accepted bool) {
 	k := rn.cs.plan.Kind
 	r := rules.NewRules(nil, rn.cfg)
-	rej, p := ev.Replay(r, log)
+	rej, p := replayAuto(r, log)
 	rn.drives++
 	rn.events += int64(len(log))
 	accepted = rej < 0
